@@ -24,6 +24,9 @@ pub struct Script {
     pub into_inner: bool,
     /// true: the fault plan is armed before `Package::open` (faults while the file is being read in)
     pub arm_before_open: bool,
+    /// true: after the operations everything is read back through the API while the fault plan is still armed;
+    /// a read that returns Ok must return what is in the file
+    pub read_back_armed: bool,
 }
 
 fn kv() -> Vec<ColDef> {
@@ -41,39 +44,43 @@ pub fn scripts() -> Vec<Script> {
     let base = vec![create("T"), ins("T", rows3.clone())];
     let many: Vec<Vec<V>> = (0..600).map(|i| vec![V::Int(i + 10), V::Str(format!("t0x{} row {}", i + 10, "r".repeat((i % 40) as usize)))]).collect();
     vec![
-        Script { name: "create+insert", setup: Some(vec![]), ops: vec![create("T"), ins("T", rows3.clone())], into_inner: false, arm_before_open: false },
+        Script { name: "create+insert", setup: Some(vec![]), ops: vec![create("T"), ins("T", rows3.clone())], into_inner: false, arm_before_open: false, read_back_armed: false },
         Script {
             name: "update+delete",
             setup: Some(base.clone()),
             ops: vec![Op::Update { table: "T".into(), sets: vec![("V".into(), V::s("t0x9 updated"))], cond: keq(2) }, Op::Delete { table: "T".into(), cond: keq(1) }],
             into_inner: true,
             arm_before_open: false,
+            read_back_armed: false,
         },
-        Script { name: "drop-table", setup: Some(base.clone()), ops: vec![Op::DropTable { name: "T".into() }], into_inner: false, arm_before_open: false },
-        Script { name: "70KB-stream", setup: Some(base.clone()), ops: vec![Op::WriteStream { name: "Big.bin".into(), data: (0..70_000u32).map(|i| (i % 251) as u8).collect() }], into_inner: true, arm_before_open: false },
+        Script { name: "drop-table", setup: Some(base.clone()), ops: vec![Op::DropTable { name: "T".into() }], into_inner: false, arm_before_open: false, read_back_armed: false },
+        Script { name: "70KB-stream", setup: Some(base.clone()), ops: vec![Op::WriteStream { name: "Big.bin".into(), data: (0..70_000u32).map(|i| (i % 251) as u8).collect() }], into_inner: true, arm_before_open: false, read_back_armed: false },
         Script {
             name: "summary-change",
             setup: Some(base.clone()),
             ops: vec![Op::Summary(SumOp::SetAuthor("t0x5 author é".into())), Op::Summary(SumOp::SetWordCount(2)), Op::Summary(SumOp::ClearTitle)],
             into_inner: false,
             arm_before_open: false,
+            read_back_armed: false,
         },
-        Script { name: "codepage-change", setup: Some(base.clone()), ops: vec![Op::SetDbCodepage(1252), Op::Summary(SumOp::SetCodepage(1252))], into_inner: true, arm_before_open: false },
-        Script { name: "long-string", setup: Some(base.clone()), ops: vec![ins("T", vec![vec![V::Int(7), V::Str(format!("t0x7{}", "L".repeat(70_000)))]])], into_inner: false, arm_before_open: false },
+        Script { name: "codepage-change", setup: Some(base.clone()), ops: vec![Op::SetDbCodepage(1252), Op::Summary(SumOp::SetCodepage(1252))], into_inner: true, arm_before_open: false, read_back_armed: false },
+        Script { name: "long-string", setup: Some(base.clone()), ops: vec![ins("T", vec![vec![V::Int(7), V::Str(format!("t0x7{}", "L".repeat(70_000)))]])], into_inner: false, arm_before_open: false, read_back_armed: false },
         Script {
             name: "reopen-then-modify",
             setup: Some(vec![create("T"), ins("T", rows3.clone()), create("U"), ins("U", vec![vec![V::Int(1), V::s("t0x1 one")]])]),
             ops: vec![ins("U", vec![vec![V::Int(2), V::s("t0x8 new")]]), Op::Delete { table: "T".into(), cond: None }],
             into_inner: true,
             arm_before_open: false,
+            read_back_armed: false,
         },
-        Script { name: "batch-insert-600", setup: Some(base.clone()), ops: vec![ins("T", many)], into_inner: false, arm_before_open: false },
+        Script { name: "batch-insert-600", setup: Some(base.clone()), ops: vec![ins("T", many)], into_inner: false, arm_before_open: false, read_back_armed: false },
         Script {
             name: "two-tables-sharing-strings",
             setup: Some(vec![create("A"), create("B")]),
             ops: vec![ins("A", vec![vec![V::Int(1), V::s("t0x1 shared")], vec![V::Int(2), V::s("t0x2 only a")]]), ins("B", vec![vec![V::Int(1), V::s("t0x1 shared")]]), Op::Delete { table: "A".into(), cond: keq(1) }],
             into_inner: false,
             arm_before_open: false,
+            read_back_armed: false,
         },
         // a table whose directory entry has two children in the container's name tree is removed
         Script {
@@ -82,6 +89,7 @@ pub fn scripts() -> Vec<Script> {
             ops: vec![Op::DropTable { name: "Mm".into() }],
             into_inner: false,
             arm_before_open: false,
+            read_back_armed: false,
         },
         Script {
             name: "remove-stream-among-many",
@@ -94,6 +102,7 @@ pub fn scripts() -> Vec<Script> {
             ops: vec![Op::RemoveStream { name: "Mm.bin".into() }, Op::Summary(SumOp::SetWordCount(4))],
             into_inner: true,
             arm_before_open: false,
+            read_back_armed: false,
         },
         // faults while the file is read in: either open fails, or what was read is what is in the file
         Script {
@@ -108,6 +117,7 @@ pub fn scripts() -> Vec<Script> {
             ops: vec![Op::Summary(SumOp::SetWordCount(2))],
             into_inner: false,
             arm_before_open: true,
+            read_back_armed: false,
         },
         Script {
             name: "open-under-faults-then-insert",
@@ -115,6 +125,7 @@ pub fn scripts() -> Vec<Script> {
             ops: vec![ins("T", vec![vec![V::Int(3), V::s("t0x3 three")]])],
             into_inner: true,
             arm_before_open: true,
+            read_back_armed: false,
         },
         // a string pool longer than the container's 8 KiB read buffer: a failed refill while the pool is read in
         Script {
@@ -128,8 +139,38 @@ pub fn scripts() -> Vec<Script> {
             ops: vec![ins("U", vec![vec![V::Int(2), V::s("t0x9001 new")]])],
             into_inner: false,
             arm_before_open: true,
+            read_back_armed: false,
         },
-        Script { name: "package-create", setup: None, ops: vec![create("T"), ins("T", rows3)], into_inner: false, arm_before_open: false },
+        // reading under faults: tables longer than the read buffer, a 70 KB stream, the summary
+        Script {
+            name: "read-everything-under-faults",
+            setup: Some(vec![
+                create("T"),
+                create("U"),
+                ins("T", (0..2600).map(|i| vec![V::Int(i + 1), V::Str(format!("t0x{} s", i + 1))]).collect()),
+                ins("U", vec![vec![V::Int(1), V::s("t0x1 s")]]),
+                Op::WriteStream { name: "Big.bin".into(), data: (0..70_000u32).map(|i| (i % 241) as u8).collect() },
+                Op::Summary(SumOp::SetTitle("t0x4 title".into())),
+            ]),
+            ops: vec![],
+            into_inner: true,
+            arm_before_open: false,
+            read_back_armed: true,
+        },
+        Script {
+            name: "open-and-read-everything-under-faults",
+            setup: Some(vec![
+                create("T"),
+                ins("T", (0..700).map(|i| vec![V::Int(i + 1), V::Str(format!("t0x{} s", i + 1))]).collect()),
+                Op::WriteStream { name: "Med.bin".into(), data: (0..9_000u32).map(|i| (i % 241) as u8).collect() },
+                Op::Summary(SumOp::SetTitle("t0x4 title".into())),
+            ]),
+            ops: vec![],
+            into_inner: false,
+            arm_before_open: true,
+            read_back_armed: true,
+        },
+        Script { name: "package-create", setup: None, ops: vec![create("T"), ins("T", rows3)], into_inner: false, arm_before_open: false, read_back_armed: false },
     ]
 }
 
@@ -152,6 +193,8 @@ pub struct RunOutcome {
     pub site: Option<String>,
     pub counts: crate::medium::Counts,
     pub bytes: Vec<u8>,
+    /// what the API returned while the fault plan was armed (scripts with `read_back_armed`)
+    pub read_back: Option<Obs>,
 }
 
 /// Runs the script on a fresh medium with the given fault armed.
@@ -160,7 +203,7 @@ pub fn run_script(sc: &Script, base: Option<&[u8]>, fault: Option<Fault>) -> Run
         Some(b) => Medium::from_bytes(b.to_vec()),
         None => Medium::new(),
     };
-    let mut out = RunOutcome { all_ok: true, first_err: None, panic: None, fired: 0, site: None, counts: Default::default(), bytes: Vec::new() };
+    let mut out = RunOutcome { all_ok: true, first_err: None, panic: None, fired: 0, site: None, counts: Default::default(), bytes: Vec::new(), read_back: None };
     let mut pkg_opt = None;
     let plan = fault.unwrap_or(Fault { kind: FaultKind::Write, at: u64::MAX, persistent: false });
     if sc.arm_before_open {
@@ -206,6 +249,19 @@ pub fn run_script(sc: &Script, base: Option<&[u8]>, fault: Option<Fault>) -> Run
                 Ok(Err(e)) => {
                     out.all_ok = false;
                     out.first_err = Some(format!("{}: {}", op.kind(), e));
+                }
+                Err(p) => {
+                    out.all_ok = false;
+                    out.panic = Some(p);
+                }
+            }
+        }
+        if sc.read_back_armed && out.all_ok && out.panic.is_none() {
+            match guarded(|| crate::observe::observe(&mut pkg)) {
+                Ok(Ok((o, _))) => out.read_back = Some(o),
+                Ok(Err(e)) => {
+                    out.all_ok = false;
+                    out.first_err = Some(format!("read back: {}", e));
                 }
                 Err(p) => {
                     out.all_ok = false;
@@ -267,6 +323,27 @@ fn check_run(rep: &mut Report, sc: &Script, base: Option<&[u8]>, expected: &Obs,
     if !o.all_ok {
         rep.count("outcome_error_reported");
         return;
+    }
+    // everything read through the API while the fault was armed came back Ok: it must be what is in the file
+    if let Some(rb) = &o.read_back {
+        if let Some(d) = expected.diff(rb) {
+            rep.count("outcome_wrong_read");
+            rep.violation(
+                format!("C15/wrong-read/{}/{}/{}", sc.name, kind, o.site.clone().unwrap_or_default()),
+                format!(
+                    "script {}: {} {} fault at call {} (site {}): every read returned Ok, but what was read differs from the file: {}",
+                    sc.name,
+                    if fault.persistent { "persistent" } else { "transient" },
+                    kind,
+                    fault.at,
+                    o.site.clone().unwrap_or_default(),
+                    d
+                ),
+                w,
+            );
+            return;
+        }
+        rep.count("outcome_ok_read_and_good");
     }
     // every call including the final flush / into_inner returned Ok: the data must be on the medium
     match reopen_observe(&o.bytes) {
@@ -360,7 +437,7 @@ pub fn run(ctx: &Ctx) -> Report {
         let stride_w = if is_create { if quick { 37 } else { 1 } } else { 1 };
         let big = p.counts.writes > 1500;
         let stride_w = if big && quick { stride_w.max(5) } else { stride_w };
-        let stride_rs = if p.sc.arm_before_open { 1 } else if quick { if is_create || big { 41 } else { 3 } } else if is_create { 3 } else { 1 };
+        let stride_rs = if p.sc.arm_before_open || p.sc.read_back_armed { 1 } else if quick { if is_create || big { 41 } else { 3 } } else if is_create { 3 } else { 1 };
         for k in (0..p.counts.writes).step_by(stride_w) {
             for persistent in [false, true] {
                 work.push((pi, Fault { kind: FaultKind::Write, at: k, persistent }));
